@@ -72,28 +72,24 @@ impl BlockFormatter for BlockIndentRemover {
 
         let mut positions = vec![];
         while end_byte_pos > current_pos {
-            let next_pos =
-                find_next_line_break_pos(content, bytes, current_pos, false).map(|v| v + 1);
-            match next_pos {
-                Some(pos) => {
-                    if pos > end_byte_pos {
-                        break;
-                    }
-                    let indent_pos = find_next_char_pos(content, bytes, current_pos);
+            // The line that the closing part begins on (it begins in the middle of a line when a
+            // child range has been merged into it) is an inner line as well, whether or not a
+            // line break follows it.
+            let next_pos = find_next_line_break_pos(content, bytes, current_pos, false)
+                .map(|v| v + 1)
+                .unwrap_or(bytes.len());
+            let indent_pos = find_next_char_pos(content, bytes, current_pos);
 
-                    if let Some(indent_pos) = indent_pos {
-                        let start = std::cmp::min(current_pos + indent_ofs, indent_pos);
-                        let end = std::cmp::min(start + indent_len, indent_pos);
+            if let Some(indent_pos) = indent_pos {
+                let start = std::cmp::min(current_pos + indent_ofs, indent_pos);
+                let end = std::cmp::min(start + indent_len, indent_pos);
 
-                        if start != end {
-                            positions.push(start..end);
-                        }
-                    }
-
-                    current_pos = pos;
+                if start != end {
+                    positions.push(start..end);
                 }
-                None => break,
             }
+
+            current_pos = next_pos;
         }
 
         positions
